@@ -816,20 +816,27 @@ func C03(c *core.Ctx) {
 						return
 					}
 					_ = x
+					// index = base + constant (a range loop's index is itself "counter + 1")
 					idx, off := ia.Index, int64(0)
-					if b, ok := core.Strip(idx).(*ssa.BinOp); ok && b.Op == token.ADD {
-						if k, isC := core.ConstInt(b.Y); isC {
-							idx, off = b.X, k
+					for n := 0; n < 4; n++ {
+						b, ok := core.Strip(idx).(*ssa.BinOp)
+						if !ok || b.Op != token.ADD {
+							break
 						}
+						k, isC := core.ConstInt(b.Y)
+						if !isC {
+							break
+						}
+						idx, off = b.X, off+k
 					}
 					cmps = append(cmps, cmpAt{bo, ia.X, idx, off, y, op})
 				})
 				for _, lo := range cmps {
-					if lo.off != 0 || (lo.op != token.LSS && lo.op != token.LEQ) {
+					if lo.op != token.LSS && lo.op != token.LEQ {
 						continue
 					}
 					for _, hi := range cmps {
-						if hi.off != 1 || (hi.op != token.GTR && hi.op != token.GEQ) {
+						if hi.off != lo.off+1 || (hi.op != token.GTR && hi.op != token.GEQ) {
 							continue
 						}
 						if !(core.Strip(lo.idx) == core.Strip(hi.idx)) || !(core.Strip(lo.v) == core.Strip(hi.v) || core.Same(lo.v, hi.v)) || !(core.Strip(lo.base) == core.Strip(hi.base) || core.Same(lo.base, hi.base)) {
@@ -943,8 +950,16 @@ func C03(c *core.Ctx) {
 						continue
 					}
 					core.Instrs(f2, func(in ssa.Instruction) {
-						if r, ok := in.(*ssa.Return); ok && len(r.Results) == 2 && core.IsNilConst(r.Results[1]) {
-							okRets = append(okRets, r)
+						// a return that does not refuse: the error is nil, or is whatever a
+						// worker returned (MakeInterest split into wrapper + worker)
+						if r, ok := in.(*ssa.Return); ok && len(r.Results) == 2 {
+							if core.IsNilConst(r.Results[1]) {
+								okRets = append(okRets, r)
+							} else if ex, isEx := core.Strip(r.Results[1]).(*ssa.Extract); isEx {
+								if cl, isCl := ex.Tuple.(*ssa.Call); isCl && cl.Call.StaticCallee() != nil && cl.Call.StaticCallee().Pkg == mi.Pkg {
+									okRets = append(okRets, r)
+								}
+							}
 						}
 					})
 				}
